@@ -207,8 +207,13 @@ func C01(r *core.Run) {
 						if conn, err := net.DialTimeout("tcp", t.addr, 5*time.Second); err == nil {
 							conn.Write(rawp)
 							conn.SetReadDeadline(time.Now().Add(3 * time.Second))
-							buf := make([]byte, 3000)
-							io.ReadAtLeast(conn, buf, 1500)
+							if tokHash(p.Tok)%2 == 0 {
+								buf := make([]byte, 3000)
+								io.ReadAtLeast(conn, buf, 1500)
+							} else {
+								// ... or shortly before its end: the proxy notices the dead client while the last chunks and the trailers are being relayed
+								io.CopyN(io.Discard, conn, int64(p.RespSize-2048*int(1+tokHash(p.Tok)%3)))
+							}
 							conn.Close()
 						}
 						mu.Lock()
@@ -245,6 +250,26 @@ func C01(r *core.Run) {
 					mu.Unlock()
 				}
 			}(c)
+		}
+		// alongside: clients that walk away 1-12 KiB before the end of a dribbled response (the proxy then learns of the
+		// dead client while the last chunks and the trailers of that response are still being relayed)
+		for k := 0; k < 96; k++ {
+			wg.Add(1)
+			go func(k int) {
+				defer wg.Done()
+				time.Sleep(time.Duration(k*7) * time.Millisecond)
+				tok := fmt.Sprintf("s%dr%dlate%d", r.Seed, round, k)
+				raw := tokRequest("GET", tok, 40000, 0, "h"+tok+".example", nil, []rawhttp.Field{{Name: ":paced"}})
+				if conn, err := net.DialTimeout("tcp", t.addr, 5*time.Second); err == nil {
+					conn.Write(raw)
+					conn.SetReadDeadline(time.Now().Add(5 * time.Second))
+					io.CopyN(io.Discard, conn, int64(40000-512*(1+k%24)))
+					conn.Close()
+				}
+				mu.Lock()
+				results = append(results, result{tok: tok, method: "GET", size: 40000, aborted: true})
+				mu.Unlock()
+			}(k)
 		}
 		wg.Wait()
 		time.Sleep(100 * time.Millisecond)
